@@ -16,6 +16,8 @@ package bytecode
 //   S <id> <mode> <existing value> <new value>           -> same (Store "x"; result = x afterwards)
 //   A <id> <mode> <declared kind> <value>                -> same (push value; requiredTypeByteCodeWithConst + Coerce as fetchArgValue does)
 //   R <id> <mode> <declared kind> <value>                -> same (Coerce opcode = return-value coercion)
+//   C <id> <mode> <op eq|ne|lt|le|gt|ge> <v1> <v2> [k]   -> same (comparison opcodes; with k the right operand is the
+//                                                           instruction operand []any{v2}, the form the optimizer produces)
 
 import (
 	"bufio"
@@ -270,6 +272,47 @@ func c03Run(f []string) (out string) {
 			err = divideByteCode(c, nil)
 		case "mod":
 			err = moduloByteCode(c, nil)
+		default:
+			return "badinput"
+		}
+
+		if err == nil {
+			res, err = c.PopWithoutUnwrapping()
+		}
+
+	case "C":
+		c = c03Context(f[2])
+
+		v1, e1 := c03Parse(f[4])
+		v2, e2 := c03Parse(f[5])
+
+		if e1 != nil || e2 != nil {
+			return "badinput"
+		}
+
+		var operand any
+
+		_ = c.push(v1)
+
+		if len(f) > 6 && f[6] == "k" {
+			operand = []any{v2}
+		} else {
+			_ = c.push(v2)
+		}
+
+		switch f[3] {
+		case "eq":
+			err = equalByteCode(c, operand)
+		case "ne":
+			err = notEqualByteCode(c, operand)
+		case "lt":
+			err = lessThanByteCode(c, operand)
+		case "le":
+			err = lessThanOrEqualByteCode(c, operand)
+		case "gt":
+			err = greaterThanByteCode(c, operand)
+		case "ge":
+			err = greaterThanOrEqualByteCode(c, operand)
 		default:
 			return "badinput"
 		}
